@@ -108,6 +108,9 @@ class C18(Check):
         import okdmr.dmrlib.protocols.hytera.p2p_datagram_protocol  # noqa
         import okdmr.dmrlib.protocols.hytera.rdac_datagram_protocol  # noqa
 
+    def budget(self, tier):
+        return 150.0 if tier == "quick" else 3000.0
+
     def arms(self, tier):
         if tier == "quick":
             return [("exh4", 10 + 100 + 1000 + 10000), ("clean", 4000), ("faults", 12000)]
